@@ -176,6 +176,22 @@ func collect(dir string) []mut {
 					out = append(out, mut{file: rel, off: p0, end: p1, repl: "!(" + string(src[p0:p1]) + ")", kind: "negate-if", old: string(src[p0:p1]), line: fset.Position(x.Cond.Pos()).Line})
 				}
 			case *ast.CallExpr:
+				// confuse a function or method with its usual counterpart
+				counterpart := map[string]string{
+					"HasPrefix": "HasSuffix", "HasSuffix": "HasPrefix", "CutPrefix": "CutSuffix", "TrimSuffix": "TrimPrefix",
+					"IndexByte": "LastIndexByte", "ByteLowercase": "ByteUppercase", "ByteUppercase": "ByteLowercase",
+					"min": "max", "max": "min", "Add": "Set", "Set": "Add", "RLock": "Lock", "RUnlock": "Unlock", "Lock": "RLock", "Unlock": "RUnlock",
+				}
+				switch fun := x.Fun.(type) {
+				case *ast.Ident:
+					if c, ok := counterpart[fun.Name]; ok {
+						add(fun.Pos(), len(fun.Name), c, "func-swap")
+					}
+				case *ast.SelectorExpr:
+					if c, ok := counterpart[fun.Sel.Name]; ok {
+						add(fun.Sel.Pos(), len(fun.Sel.Name), c, "func-swap")
+					}
+				}
 				// swap two adjacent arguments that are plain identifiers or selectors
 				for k := 0; k+1 < len(x.Args); k++ {
 					simple := func(e ast.Expr) bool {
